@@ -182,9 +182,26 @@ def rule_partition(ck: Check, repo: Repo, rid: str = "R4") -> None:
     if txt != ["text[:index]", "comment + '\\n'", "text[index + len(comment) + 1:]"]:
         r.violation(q, "sections are not a partition of the text", f"{txt}", repo.loc(fn))
     src = ast.unparse(fn)
-    if "comment = style.comment_at_first_character(text[index:])" not in src or "for index in indices:" not in src or \
-            "indices = _indices_of_newlines(text)" not in src:
-        r.violation(q, "comment blocks are not searched at line starts", "", repo.loc(fn))
+    from ..rules import has, single_assign_value
+    calls = [c for c in ast.walk(fn) if isinstance(c, ast.Call) and isinstance(c.func, ast.Attribute)
+             and c.func.attr == "comment_at_first_character" and len(c.args) == 1]
+    args = []
+    for c in calls:
+        a = c.args[0]
+        if isinstance(a, ast.Name):
+            a = single_assign_value(fn, a.id) or a
+        args.append(ast.unparse(a))
+    p0 = fn.args.args[0].arg if fn.args.args else "text"
+    loops = [n for n in ast.walk(fn) if isinstance(n, ast.For) and isinstance(n.target, ast.Name)]
+    idx = loops[0].target.id if loops else "index"
+    r.instance("comment-search", {"searched_text": args, "loop_variable": idx})
+    if len(calls) != 1 or args != [f"{p0}[{idx}:]"]:
+        r.violation(q, f"the comment parser does not see the whole rest of the text ({args})",
+                    f"comment_at_first_character must receive {p0}[{idx}:] - a bounded window cuts long headers, the block is no longer"
+                    f" recognised as the header the tool wrote and the next run stacks a second one", repo.loc(calls[0] if calls else fn))
+    if not has(src, "for index in indices:", ["index", "indices"]) or \
+            not has(src, "indices = _indices_of_newlines(text)", ["indices", "text"]):
+        r.violation(q, "comment blocks are not searched at line starts", "every line start must be a candidate", repo.loc(fn))
     if "if contains_reuse_info(comment):" not in src:
         r.violation(q, "first block WITH REUSE information", "only a comment block that contains REUSE info is the header", repo.loc(fn))
 
